@@ -1,4 +1,4 @@
-package c09
+package jgram
 
 // Grammar-directed generator of Java compilation units over the productions of the shipped
 // JavaParser.g4 — core: emission, labels, names, literals, annotations, types.
